@@ -25,6 +25,12 @@ BASES = {
     'ground': ['-f', '7.1', '-w', '4,0,0,0,0.5,0.5,3,.002', '-w', '4,0.5,0.5,3,3,1,4,.002', '--medium=13,0.005,0,5', '--medium=3,0.001,-1',
                '--radial-count=8', '--radial-radius=0.001', '--excitation-pulse=1'],
     'arcgnd': ['-f', '14.2', '-a', '6,1.5,0,180,.002', '-w', '3,0.3,0.5,1.8,1.3,2,2.3,.002', '--medium=0,0,0', '--excitation-pulse=1'],
+    # junctions typed with different rounding (joined by the 1e-3 segment tolerance, not by identical coordinates):
+    # second end of wire 2 on the end of wire 1, first end of wire 3 on the start of wire 1. The offsets are 1e-10 m: the solver does
+    # not consolidate the coordinates of fuzzily joined ends and its feed impedance moves by ~500 x offset/m (4.7e-3 at 1e-5 m,
+    # still inside the matching tolerance) - with 1e-10 that stays below the read-back tolerance of C18
+    'fuzzy': ['-f', '300', '-w', '10,0,0,0,0.333333,0,0,.001', '-w', '10,0.3333330001,0,0.333333,0.3333330001,0,0,.001', '-w', '6,1e-10,0,0,0,0.2,0.1,.001',
+              '--excitation-pulse=9'],
     'loaded': ['-f', '21.3', '-w', '4,0,0,1,0.5,0.8,2,0.001', '-w', '5,0.5,0.8,2,2,0.5,2.6,0.002', '-w', '3,2,0.5,2.6,2.5,2,2,0.001',
                '--excitation-pulse=2', '--load=10+5j', '--attach-load=1,4'],
 }
